@@ -112,6 +112,8 @@ def _ingest(kind):
         return st.sampled_from([100, 100, 100.0])
     if kind == "table":
         return st.sampled_from(PERCENTS)
+    if kind == "integer":
+        return st.integers(1, 99)
     return st.floats(0.01, 100.0, allow_nan=False, allow_infinity=False)
 
 
@@ -148,12 +150,28 @@ def _files_case(draw, large):
         "groups": groups,
         "bulk": bulk,
         "batch_k": batch_k,
-        "ingest": draw(st.sampled_from(["full", "full", "full", "table", "table", "float"]).flatmap(_ingest)),
+        "ingest": draw(st.sampled_from(["full", "full", "full", "table", "table", "float", "integer"]).flatmap(_ingest)),
         "conflicts": conflicts,
         "order_a": draw(st.lists(st.integers(0, 16), max_size=12)),
         "order_b": draw(st.lists(st.integers(0, 16), max_size=12)),
         "select": {"corpora": None, "indices": None},
     }
+    if not large and draw(st.integers(0, 7)) == 0:
+        # template: p % of the group's bulks is a whole number (25 / 50 / 100 / 200 bulks, integer percentage): one single group reads one file
+        n_bulks = draw(st.sampled_from([25, 50, 100, 100, 200, 300]))
+        step = 100 // math.gcd(100, n_bulks)
+        case["ingest"] = step * draw(st.integers(1, max(1, 99 // step)))
+        case["bulk"] = draw(st.sampled_from([1, 1, 2, 3]))
+        f0 = dict(case["corpora"][0]["files"][0], docs=n_bulks * case["bulk"])
+        case["corpora"] = [{"name": case["corpora"][0]["name"], "files": [f0]}]
+        if draw(st.booleans()):
+            case["clients"] = 1
+        case["groups"] = [case["clients"]]
+        case["conflicts"] = None
+        case["batch_k"] = 1
+        case["select"] = {"corpora": None, "indices": None}
+        case["template"] = "whole-percentage-of-bulks"
+        return case
     if conflicts is not None:
         case["probability"] = draw(st.sampled_from([0, 10, 25, 50, 75, 100]) | st.floats(0, 100, allow_nan=False))
         case["on_conflict"] = draw(st.sampled_from(["index", "update", "update", None]))
@@ -685,11 +703,19 @@ def _analyse_group(obs, case, by_tag, gi, bulks, fresh_ids, tag):
 
 
 def _accepted_counts(pct, total):
-    """ceil(p% x total) for p as written in the track; where evaluating that product in double precision lands on the other side of an
-    integer (100 bulks at 7 % = 7.000000000000001) the count obtained that way is accepted too"""
+    """
+    ceil(p% x total) for p as written in the track. Where p is a binary fraction (every integer percentage, 2.5, 12.5, ...) the product
+    total x p is exact in double precision and the division by 100 is correctly rounded, so a whole result stays whole: exactly one count
+    is right (28 % of 25 bulks are 7 bulks, not 8). For other percentages (33.3, 0.001) the track's decimal and the double the code receives
+    differ: the count for either of the two exact values is accepted, and - only if the decimal product is within 1e-9 of an integer -
+    what the documented formula (total x p) / 100 gives when evaluated in doubles.
+    """
     exact = Fraction(str(pct)) * total / 100
     accepted = {math.ceil(exact)}
-    for fx in ((total * float(pct)) / 100, total * (float(pct) / 100)):
+    binary = Fraction(float(pct))
+    if binary != Fraction(str(pct)) or (total * binary).denominator != 1 and total * binary >= 2**53:
+        accepted.add(math.ceil(binary * total / 100))
+        fx = (total * float(pct)) / 100
         if abs(Fraction(fx) - exact) <= Fraction(1, 10**9) * max(1, exact):
             accepted.add(math.ceil(fx))
     return accepted
@@ -715,6 +741,7 @@ def _run_files(case, obs):
         limit = total_docs + 5
         ingest = case["ingest"]
         partial = float(ingest) < 100.0
+        whole_share = False
 
         per_group_entries = []
         fresh_ids = {}
@@ -766,6 +793,8 @@ def _run_files(case, obs):
                 if not obs.check(not runaway, "cover/runaway", f"group {gi} (run C) issued more than {limit} bulks"):
                     return
                 accepted = _accepted_counts(ingest, len(bulks_a))
+                if (Fraction(str(ingest)) * len(bulks_a) / 100).denominator == 1:
+                    whole_share = True
                 obs.check(
                     len(bulks_c) in accepted,
                     "ingest/wrong-count",
@@ -860,6 +889,8 @@ def _run_files(case, obs):
             obs.cls("duplicate-lines")
         if case["batch_k"] > 1:
             obs.cls("batch>bulk")
+        if whole_share:
+            obs.cls("ingest-share-is-a-whole-number-of-bulks")
         if len(targeted) < sum(len(cf) for cf in files):
             obs.cls("selection")
         if any(0 < len(f.docs) < case["clients"] for f in targeted):
